@@ -308,6 +308,11 @@ fn read_obj(d: &AutoCommit, obj: &ObjId, heads: Option<&[ChangeHash]>, enc: Text
 fn expected_cursor(d: &AutoCommit, obj: &ObjId, heads: Option<&[ChangeHash]>, enc: TextEncoding, op: &Id, before: bool) -> Option<(usize, bool, bool)> {
     let sops = match heads { Some(h) => shadow_ops(&d.clone().fork_at(h).ok()?), None => shadow_ops(d) };
     let elem = elem_of(&sops, op)?;
+    // a zero-width element (an empty string put on a text index) is visible but no unit index reaches it: the
+    // index walk below cannot see it, so this oracle has no expectation for such texts (the model still
+    // predicts every cursor resolution)
+    let objs = show_exid(obj);
+    if sops.iter().any(|o| o.obj == objs && matches!(&o.kind, SKind::Str(t) if t.is_empty())) { return None; }
     let elems = elem_walk(d, obj, heads, enc);
     let value_op = elems.iter().any(|x| x.ids.contains(op));
     let index_of = |e: &Id| elems.iter().find(|x| x.ids.iter().any(|i| elem_of(&sops, i).as_ref() == Some(e))).map(|x| x.start);
